@@ -134,6 +134,7 @@ func cmdWorker(args []string) int {
 	start := time.Now()
 	timed := *tier == "thorough" && *budget > 0 && *runs == 0
 	minimised := map[string]int{}
+	var shrinkSpent time.Duration // bounds minimisation effort per worker; never affects what a run does
 	if ex, ok := p.(Extra); ok && *w == 0 {
 		ex.Exhaustive(*tier,
 			func(name string, cases uint64) { st.Exhaustive[name] += cases },
@@ -168,12 +169,14 @@ func cmdWorker(args []string) int {
 		}
 		st.Violations++
 		pre := v.Kind + "|" + v.Sig
-		if minimised[pre] >= 3 {
+		if minimised[pre] >= 3 || (shrinkSpent > 120*time.Second && minimised[pre] >= 1) || shrinkSpent > 300*time.Second {
 			continue
 		}
 		minimised[pre]++
+		shrinkStart := time.Now()
 		t0, s0 := r.T.Snapshot(), r.S.Snapshot()
 		mv, mt, ms, execs := Minimise(p, *tier, v, t0, s0, 3000, 20*time.Second)
+		shrinkSpent += time.Since(shrinkStart)
 		st.ShrinkExecs += uint64(execs)
 		exec := func(t, s []uint32) (*Violation, *Run) { return Exec(p, *tier, 0, t, s, true, false) }
 		mv = p.Refine(mv, mt, ms, exec)
@@ -449,7 +452,11 @@ func cmdCheck(args []string) int {
 		for _, m := range machinery {
 			fmt.Fprintln(os.Stderr, "MACHINERY:", m)
 		}
-		return 2
+		// a violation that reproduced from its replay file stands; machinery trouble alone
+		// is never reported as a violation
+		if exit == 0 {
+			return 2
+		}
 	}
 	return exit
 }
